@@ -413,6 +413,11 @@ class ContinuousJsrun(AgentSchedulingComponent):
                                  int(m.floor(mem_per_node / mem_per_slot)))
         tmp.append([mem_per_node, mem_per_slot, slots_per_node])
 
+        # a slot (resource set) hosts `ranks_per_slot` ranks
+        if td['ranks_per_node']:
+            slots_per_node = min(slots_per_node,
+                                 td['ranks_per_node'] // ranks_per_slot)
+
         if not mpi and req_slots > slots_per_node:
             raise ValueError('non-mpi task does not fit on a single node:'
                     '%s * %s:%s > %s:%s -- %s > %s [%s %s] %s' % (req_slots,
